@@ -481,6 +481,23 @@ pub fn write_json_string(x: &str, s: &mut String) {
     s.push('"');
 }
 
+/// does the text contain a `\uD800`-`\uDFFF` escape (the quantifiers of C01/C02 exclude them:
+/// jawk has no surrogate pairs - the same root as the known finding astral-escape-5hex)
+pub fn has_surrogate_escape(b: &[u8]) -> bool {
+    let mut i = 0;
+    while i + 5 < b.len() {
+        if b[i] == b'\\' {
+            if b[i + 1] == b'u' && (b[i + 2] == b'd' || b[i + 2] == b'D') && matches!(b[i + 3], b'8' | b'9' | b'a' | b'b' | b'c' | b'd' | b'e' | b'f' | b'A' | b'B' | b'C' | b'D' | b'E' | b'F') {
+                return true;
+            }
+            i += 2;
+            continue;
+        }
+        i += 1;
+    }
+    false
+}
+
 /// JSON string with raw UTF-8 (only the mandatory escapes)
 pub fn write_json_string_utf8(x: &str, s: &mut String) {
     s.push('"');
